@@ -11,7 +11,8 @@ echo "   failing lines: $fails"
 echo "== 2. demo with the change"
 (cd $out/demo && cargo run --offline >/tmp/seed-out/$id-demo-with.log 2>&1; echo "   exit=$?")
 echo "== 3. demo without the change"
-(cd $wt && git stash -q) && (cd $out/demo && cargo run --offline >/tmp/seed-out/$id-demo-without.log 2>&1; echo "   exit=$?"); (cd $wt && git stash pop -q)
+# (git stash is shared by all worktrees of a repository: toggle with apply -R instead)
+(cd $wt && git diff > /tmp/seed-out/$id-toggle.diff && git apply -R /tmp/seed-out/$id-toggle.diff) && (cd $out/demo && cargo run --offline >/tmp/seed-out/$id-demo-without.log 2>&1; echo "   exit=$?"); (cd $wt && git apply /tmp/seed-out/$id-toggle.diff)
 echo "== 4. our checks against the change applied to /repo"
 if ! git -C /repo diff --quiet; then echo "repo dirty"; exit 2; fi
 git -C /repo apply $out/patch.diff || { echo "patch does not apply to /repo"; exit 2; }
